@@ -1022,7 +1022,7 @@ func run(c *vm.Ctx) {
 	if c.Shard == 5%c.NShards {
 		additions["highest-count-byte"](c)
 	}
-	for _, name := range []string{"positions2", "streams", "together", "spare", "reuse-lists", "snbt-reuse"} {
+	for _, name := range []string{"positions2", "streams", "together", "spare", "reuse-lists", "snbt-reuse", "repeated-names"} {
 		additions[name](c)
 	}
 }
